@@ -1207,6 +1207,13 @@ func (ex *Exec) atReturn(st *State, ret *ssa.Return) {
 		return
 	}
 	ctx := &specCtx{mode: "exit", results: results}
+	if ex.p.returnCovers && !ex.isInit {
+		// reachability of this return under everything assumed on the way (thorough tier):
+		// a refuted path is either dead code or a contradiction among assumptions
+		cov := &Obligation{Name: ex.uniqueName(ex.name + "/cover-return/" + site), Fn: ex.name, Kind: "cover-return", Expect: "sat", Goal: "return reachable", Pos: ex.posOf(ret)}
+		cov.Script = ex.script(st, TTrue)
+		ex.obls = append(ex.obls, cov)
+	}
 	if ex.fc != nil {
 		ex.assumeUses(st, ex.fc.Uses, ctx)
 	}
